@@ -153,7 +153,7 @@ def main(tier):
     groups = []
     for g in range(0, len(texts), 16):
         groups.append({"id": "w%d" % g, "cases": [rel.case("c%d" % (g + j), t) for j, t in enumerate(texts[g:g + 16])],
-                       "reps": 4 if thorough else 2, "readers": 8})
+                       "reps": 4 if thorough else 2, "readers": 8, "writers": 3 if g % 48 == 0 else 0})
     # projects with INCLUDE whose first validations in this process happen at the same moment (6 goroutines per
     # project), then concurrently again
     import c08
@@ -198,7 +198,7 @@ def main(tier):
         for d in o["diffs"]:
             dd = json.loads(d)
             what = "concurrent run differs"
-            if dd.get("solo") == "ok" and dd.get("concurrent") == "ok" and \
+            if dd.get("solo") == "ok" and dd.get("concurrent") == "ok" and "solo_json" in dd and \
                     rel.strip_examples(dd["solo_json"]) == rel.strip_examples(dd["conc_json"]):
                 what = "example-only"
             sig = {"kind": "concurrent", "what": what, "readers": str(bool(dd.get("readers")))}
